@@ -8,6 +8,7 @@ import Rscp.Tie.Client
 #print axioms Rscp.Props.C11.auth_window_quiet
 #print axioms Rscp.Props.C11.auth_frame_not_logged
 #print axioms Rscp.Props.C11.request_data_sites
+#print axioms Rscp.Props.C11.known_finding_received_dump_is_logged
 #print axioms Rscp.Tie.Log.shape_rscp_Message_String
 #print axioms Rscp.Tie.Log.shape_rscp_Tag_isSecret
 #print axioms Rscp.Tie.Log.shape_rscp_Write
